@@ -366,7 +366,8 @@ StrLess(s, t, i) == IF i > Len(t) THEN FALSE
                     ELSE StrLess(s, t, i + 1)
 
 Rel(op, a, b) ==
-    CASE Numeric(a) /\ Numeric(b) ->
+    CASE a.k = "unk" \/ b.k = "unk" -> Unk          \* "unk" carries no kind (an undetermined number or boolean)
+      [] Numeric(a) /\ Numeric(b) ->
             IF a.k = "unk" \/ b.k = "unk" THEN Unk
             ELSE IF a.k = "nan" \/ b.k = "nan" THEN BoolV(FALSE)          \* IEEE: every ordering with NaN is false
             ELSE BoolV(CASE op = "<" -> a.n < b.n [] op = "<=" -> a.n <= b.n
@@ -378,7 +379,8 @@ Rel(op, a, b) ==
 
 \* equality of two values of the same kind: TRUE / FALSE, or "unk"/"ill" as a value
 Same(a, b) ==
-    CASE Numeric(a) /\ Numeric(b) ->
+    CASE a.k = "unk" \/ b.k = "unk" -> Unk
+      [] Numeric(a) /\ Numeric(b) ->
             IF a.k = "unk" \/ b.k = "unk" THEN Unk
             ELSE IF a.k = "nan" \/ b.k = "nan" THEN BoolV(FALSE)          \* NaN == x is false
             ELSE BoolV(a.n = b.n)
@@ -425,7 +427,7 @@ Eval(t, fv) ==
       [] Tag(t) = "nil"  -> NilV
       [] Tag(t) = "fld"  -> FieldV(fv)
       [] Tag(t) = "not"  -> LET a == Eval(t[2], fv) IN
-                            IF a.k = "bool" THEN BoolV(~a.b) ELSE Ill
+                            IF a.k = "bool" THEN BoolV(~a.b) ELSE IF a.k = "unk" THEN Unk ELSE Ill
       [] Tag(t) = "neg"  -> LET a == Eval(t[2], fv) IN
                             (CASE a.k = "num" -> NumV(0 - a.n) [] a.k = "nan" -> NaN [] a.k = "unk" -> Unk [] OTHER -> Ill)
       [] Tag(t) = "bin"  ->
